@@ -4,14 +4,16 @@
    63-bit integers, whose specifications (the Uint63 and PrimInt63 modules) the standard
    library declares as axioms.  The harness lists them under the trusted base. *)
 From Coq Require Import ZArith Reals.
-From SV Require Import C07.GaussR C07.GaussBox C07.GaussWide.
+From SV Require Import C07.GaussR C07.GaussBox C07.GaussWide C07.GaussNeg.
 Local Open Scope R_scope.
 
 (* "helps": the error after refinement is at most the error before.  Proved for patch
    sizes 3, 5, 7, displacement 0 < a <= 1/2 and sigma anywhere in [1/2, 4] (continuous
    box, interval arithmetic + an analytic argument near a = 0).  PARTIAL: sigma outside
-   [1/2, 4], other patch sizes and negative displacements (mirror image) are not
-   covered by this statement; the harness measures them. *)
+   [1/2, 4] and other patch sizes are not covered by this statement (the harness measures
+   them); negative displacements: c07_gaussian_error_does_not_grow_negative_partial below.
+   All statements of this file are about the formula on an UNCLIPPED window, i.e. a peak
+   whose patch lies inside the map (outside finding F25, see Props.v). *)
 Theorem c07_gaussian_error_does_not_grow_partial : forall sigma ax ay r,
   (1 <= r <= 3)%nat -> 1/2 <= sigma <= 4 ->
   (0 < ax <= 1/2 -> 0 < offx_R (gauss sigma ax ay) r <= 2 * ax /\
@@ -26,7 +28,7 @@ Print Assumptions c07_gaussian_error_does_not_grow_partial.
        sigma^2 >= r(r+1)/6 + (2r+1)^2/8   (r = 1: sigma >= 1.21, r = 2: 2.04, r = 3: 2.86)
    numerator <= 2 a r(r+1)(2r+1) / (6 sigma^2)  (1 - e^-t <= t, values <= 1),
    mass >= (2r+1) (1 - (r+1/2)^2 / (2 sigma^2)). *)
-Theorem c07_gaussian_error_does_not_grow_large_sigma : forall sigma ax ay r, (1 <= r)%nat ->
+Theorem c07_gaussian_error_does_not_grow_large_sigma_partial : forall sigma ax ay r, (1 <= r)%nat ->
   IZR (Z.of_nat r) * (IZR (Z.of_nat r) + 1) / 6 +
     (2 * IZR (Z.of_nat r) + 1) * (2 * IZR (Z.of_nat r) + 1) / 8 <= sigma * sigma ->
   (0 < ax <= 1/2 -> 0 < offx_R (gauss sigma ax ay) r <= 2 * ax /\
@@ -34,7 +36,7 @@ Theorem c07_gaussian_error_does_not_grow_large_sigma : forall sigma ax ay r, (1 
   (0 < ay <= 1/2 -> 0 < offy_R (gauss sigma ax ay) r <= 2 * ay /\
                     Rabs (offy_R (gauss sigma ax ay) r - ay) <= ay).
 Proof. exact gauss_no_overshoot_wide. Qed.
-Print Assumptions c07_gaussian_error_does_not_grow_large_sigma.
+Print Assumptions c07_gaussian_error_does_not_grow_large_sigma_partial.
 
 (* patch sizes 3, 5, 7 and ALL sigma >= 1/2: the box above up to sigma = 4, the analytic
    bound beyond.  PARTIAL: sigma < 1/2, and patch sizes > 7 with sigma below the bound of
@@ -47,6 +49,30 @@ Theorem c07_gaussian_error_does_not_grow_all_sigma_partial : forall sigma ax ay 
                     Rabs (offy_R (gauss sigma ax ay) r - ay) <= ay).
 Proof. exact gauss_error_does_not_grow_all_sigma. Qed.
 Print Assumptions c07_gaussian_error_does_not_grow_all_sigma_partial.
+
+(* NEGATIVE displacement -1/2 <= a < 0 (round 4): the Gaussian displaced by -a is the mirror
+   image of the one displaced by a (bump_mirror_x, numx_mirror, mass_mirror_x of GaussR.v), so
+   the offset changes sign: it is negative, not beyond 2a, and the error does not grow.
+   Patch sizes 3, 5, 7 and all sigma >= 1/2; PARTIAL as above otherwise. *)
+Theorem c07_gaussian_error_does_not_grow_negative_partial : forall sigma ax ay r,
+  (1 <= r <= 3)%nat -> 1/2 <= sigma ->
+  (- (1/2) <= ax < 0 -> 2 * ax <= offx_R (gauss sigma ax ay) r < 0 /\
+                        Rabs (offx_R (gauss sigma ax ay) r - ax) <= - ax) /\
+  (- (1/2) <= ay < 0 -> 2 * ay <= offy_R (gauss sigma ax ay) r < 0 /\
+                        Rabs (offy_R (gauss sigma ax ay) r - ay) <= - ay).
+Proof. exact gauss_error_does_not_grow_negative. Qed.
+Print Assumptions c07_gaussian_error_does_not_grow_negative_partial.
+
+(* ... and every odd size with sigma large relative to the patch (analytic bound) *)
+Theorem c07_gaussian_error_does_not_grow_large_sigma_negative_partial : forall sigma ax ay r, (1 <= r)%nat ->
+  IZR (Z.of_nat r) * (IZR (Z.of_nat r) + 1) / 6 +
+    (2 * IZR (Z.of_nat r) + 1) * (2 * IZR (Z.of_nat r) + 1) / 8 <= sigma * sigma ->
+  (- (1/2) <= ax < 0 -> 2 * ax <= offx_R (gauss sigma ax ay) r < 0 /\
+                        Rabs (offx_R (gauss sigma ax ay) r - ax) <= - ax) /\
+  (- (1/2) <= ay < 0 -> 2 * ay <= offy_R (gauss sigma ax ay) r < 0 /\
+                        Rabs (offy_R (gauss sigma ax ay) r - ay) <= - ay).
+Proof. exact gauss_no_overshoot_wide_negative. Qed.
+Print Assumptions c07_gaussian_error_does_not_grow_large_sigma_negative_partial.
 
 Example ex_c07_large_sigma_hypothesis :
   IZR (Z.of_nat 2) * (IZR (Z.of_nat 2) + 1) / 6 + (2 * IZR (Z.of_nat 2) + 1) * (2 * IZR (Z.of_nat 2) + 1) / 8 <= 3 * 3.
